@@ -43,6 +43,12 @@ def run(prog, res):
   for q in ('lattice_lib.project_by_dykstra',):
     hashkeys.check_function(prog, res, prog.function(q))
   res.floor('T4', 8)
+  from ..rules import siblings
+  siblings.selfcheck()
+  for g in prog.all_functions():
+    if g.parent is None and g.module.name == 'lattice_lib':
+      siblings.check_function(prog, res, g)
+  res.floor('CP1', 10)
   affine_rules.check_partials(prog, res)
   affine_rules.check_hyperplane(prog, res)
   affine_rules.check_pwl_bounds(prog, res)
